@@ -237,18 +237,38 @@ func c19Run(r *Run) {
 		r.fail("anchor not found: (*ClassGeneric).Clone")
 	} else {
 		recv := info.Defs[clone.Recv.List[0].Names[0]]
+		// the type-argument map: the map-typed field(s) of ClassGeneric, whatever they are called
+		mapField := map[types.Object]bool{}
+		if cg := r.lookupType(npkg, "ClassGeneric"); cg != nil {
+			if st, ok := cg.Underlying().(*types.Struct); ok {
+				for i := 0; i < st.NumFields(); i++ {
+					if _, isMap := st.Field(i).Type().Underlying().(*types.Map); isMap {
+						mapField[st.Field(i)] = true
+					}
+				}
+			}
+		}
+		if len(mapField) == 0 {
+			r.fail("node.ClassGeneric has no map-typed field: the type-argument map moved")
+		}
+		isMapSel := func(se *ast.SelectorExpr) bool {
+			if sel, ok := info.Selections[se]; ok {
+				return mapField[sel.Obj()]
+			}
+			return false
+		}
 		okMap, seen := true, false
 		ast.Inspect(clone.Body, func(n ast.Node) bool {
 			var value ast.Expr
 			switch x := n.(type) {
 			case *ast.KeyValueExpr:
-				if exprStr(x.Key) == "GenericMap" {
+				if id, ok := x.Key.(*ast.Ident); ok && mapField[info.Uses[id]] {
 					value = x.Value
 				}
 			case *ast.AssignStmt:
 				// built field by field: inst.GenericMap = m
 				for i, l := range x.Lhs {
-					if se, ok := ast.Unparen(l).(*ast.SelectorExpr); ok && se.Sel.Name == "GenericMap" && i < len(x.Rhs) {
+					if se, ok := ast.Unparen(l).(*ast.SelectorExpr); ok && isMapSel(se) && i < len(x.Rhs) {
 						if id, ok := ast.Unparen(se.X).(*ast.Ident); !ok || info.Uses[id] != recv {
 							value = x.Rhs[i]
 						}
@@ -263,7 +283,7 @@ func c19Run(r *Run) {
 			aliased := false
 			ast.Inspect(kv.Value, func(m ast.Node) bool {
 				if se, ok := m.(*ast.SelectorExpr); ok {
-					if id, ok := ast.Unparen(se.X).(*ast.Ident); ok && info.Uses[id] == recv && se.Sel.Name == "GenericMap" {
+					if id, ok := ast.Unparen(se.X).(*ast.Ident); ok && info.Uses[id] == recv && isMapSel(se) {
 						aliased = true
 					}
 				}
@@ -278,7 +298,7 @@ func c19Run(r *Run) {
 		if seen && okMap {
 			r.ok(key, clone.Pos(), "the clone stores the map it is given, not the receiver's map")
 		} else {
-			r.bad(key, clone.Pos(), "Clone does not give the new instantiation its own GenericMap (it reuses the receiver's or sets none)")
+			r.bad(key, clone.Pos(), "Clone does not give the new instantiation its own type-argument map (it reuses the receiver's or sets none)")
 		}
 	}
 	for _, fd := range funcDecls(npkg) {
